@@ -128,6 +128,8 @@ def c20_b(ctx):
         for n in own_nodes(h.node):
             if isinstance(n, ast.Compare) and len(n.ops) == 1 and isinstance(n.ops[0], ast.Eq):
                 t = ex.term(n)
+                if t[0] == 'cmp' and t[2][0] == 'const' and isinstance(t[2][1], str):
+                    t = ('cmp', t[1], t[3], t[2])
                 if t[0] == 'cmp' and t[3][0] == 'const' and isinstance(t[3][1], str):
                     cs.add(t[3][1])
                     # strip the per-parameter index
@@ -267,7 +269,11 @@ def c20_d(ctx):
                       "a rejected candidate does not restore state['{}'] from the previous "
                       'step'.format(key), fn=f, node=st[0] if st else f.node)
         adv = [s for (s, t2, k) in ctx.stores(f, "self.state['n_samples']")
-               if isinstance(s, ast.AugAssign) and exf.term(s.value) == ('const', 1)]
+               if isinstance(s, ast.AugAssign) and isinstance(s.op, ast.Add) and
+               exf.term(s.value) == ('const', 1)]
+        allw = [s for (s, t2, k) in ctx.stores(f, "self.state['n_samples']")]
+        if len(allw) != len(adv):
+            adv = []
         ok = len(adv) == 1 and cfg_of(f).must_pass([ctx.node(f, adv[0])])
         ctx.check(ok, f, 'chain advances once per round', "state['n_samples'] += 1 on every path",
                   'the sample counter is not advanced exactly once per processed round', fn=f,
@@ -332,7 +338,7 @@ def c20_e(ctx):
                   "state['{}'][n] = state['{}'][n-1]".format(key, key),
                   "a candidate outside the support does not copy state['{}'] from the previous "
                   'step'.format(key), fn=ir, node=st[0] if st else t)
-    adv = [s for s in t.orelse if isinstance(s, ast.AugAssign) and
+    adv = [s for s in t.orelse if isinstance(s, ast.AugAssign) and isinstance(s.op, ast.Add) and
            match(ex.term(s.target), pattern("self.state['n_samples']")) is not None and
            ex.term(s.value) == ('const', 1)]
     nobrk = not any(isinstance(s, (ast.Break, ast.Return)) for s in t.orelse)
@@ -402,7 +408,7 @@ def c20_f(ctx):
                           show(cov)[:100] if cov else None), fn=f, node=c)
         # whitening applied to both sides together
         wh = [n for n in own_nodes(f.node) if isinstance(n, ast.If) and
-              contains(ex.term(n.test), 'whitening is not None')]
+              match(ex.term(n.test), pattern('whitening is not None')) is not None]
         if 'whitening' in f.all_params:
             ok = False
             for n in wh:
@@ -451,6 +457,17 @@ def c20_f(ctx):
     if n < 1:
         ctx.undecided('no likelihood call in BSL')
     # posterior = likelihood + prior
+    n_post = 0
+    for m in cls.methods.values():
+        for (s, t, k) in ctx.stores(m, "self.state['logposterior'][_]"):
+            if isinstance(s, ast.Assign) and contains(ctx.term(m, s.value), 'self.likelihood(*_)') \
+                    and cfg_of(m).must_pass([ctx.node(m, s)]) and \
+                    ctx.term(m, s.targets[0].slice) == pattern_term("self.state['n_samples']"):
+                n_post += 1
+    ctx.check(n_post >= 1, cls.qname, 'log posterior of the candidate recorded',
+              "state['logposterior'][n] = loglik + logprior[n] on every path",
+              'the log posterior of the candidate is not recorded on every path before the '
+              'acceptance test')
     for m in cls.methods.values():
         for (s, t, k) in ctx.stores(m, "self.state['logposterior'][_]"):
             if isinstance(s, ast.Assign):
